@@ -13,7 +13,11 @@ import numpy as np
 from . import common, meshes
 from .common import INT_FILL, enc_ints, enc_pairs, enc_rows
 
-SPEC_MAX_FACES = 90  # the Lean spec is O(F^2 E); larger meshes are judged through the model
+# The driver decides Pre / Spec with `Incidence.preFast` / `Incidence.failingFast`, PROVED equal to the
+# specification's own Booleans (C03.preFast_eq, C03.failingFast_eq, C03.specFast_eq_spec), so every case of
+# any size is judged by the Lean spec.  The specification's own (cubic) decision procedure is run next to
+# it on small cases only, as a cross-check of the compiled driver.
+REF_MAX_FACES = 12
 
 
 def observe(g):
@@ -59,6 +63,8 @@ def judge_grid(ctx, g, inp, tag, key, prefix="C03/"):
         return
     enc = enc_in(n, w, t, FE, N, n_edge)
     pre = d.ask("C03.pre", enc)
+    if len(t) <= REF_MAX_FACES and d.ask("C03.pre_ref", enc) != pre:
+        raise RuntimeError(f"C03 driver: preFast and decide Pre disagree on {inp}")
     ctx.case(key, nontrivial=len(t) > 1, sample=dict(inp, implementation=o) if len(t) <= 3 else None)
     ctx.hit("pre-holds" if pre == "1" else "pre-fails(non-manifold)")
     if pre != "1":
@@ -79,14 +85,19 @@ def judge_grid(ctx, g, inp, tag, key, prefix="C03/"):
     same = all(o[k] == model[k] for k in ("nodeFace", "edgeFace", "faceFace", "holes"))
     if same:
         ctx.hit("identical-to-model")
-    if len(t) <= SPEC_MAX_FACES or not same:
-        verdict = d.ask("C03.spec", enc, enc_rows(o["nodeFace"]), enc_pairs(o["edgeFace"]),
-                        enc_rows(o["faceFace"]), enc_ints(o["holes"]))
-        ctx.hit("lean-spec-evaluated")
-        if verdict != "ok":
-            clauses = verdict.split(" ", 1)[1].split(",")
-            ctx.fail(prefix + "+".join(clauses), "incidence tables are not mutual transposes: " + verdict, inp, o, model, clauses)
-            return
+    out_enc = (enc_rows(o["nodeFace"]), enc_pairs(o["edgeFace"]), enc_rows(o["faceFace"]), enc_ints(o["holes"]))
+    verdict = d.ask("C03.spec", enc, *out_enc)
+    ctx.hit("lean-spec-evaluated")
+    if len(t) > 90:
+        ctx.hit("lean-spec-evaluated:>90-faces")
+    if len(t) <= REF_MAX_FACES:
+        if d.ask("C03.spec_ref", enc, *out_enc) != verdict:
+            raise RuntimeError(f"C03 driver: failingFast and failing disagree on {inp}")
+        ctx.hit("fast==reference-spec")
+    if verdict != "ok":
+        clauses = verdict.split(" ", 1)[1].split(",")
+        ctx.fail(prefix + "+".join(clauses), "incidence tables are not mutual transposes: " + verdict, inp, o, model, clauses)
+        return
     if o["n_max_node_faces"] != len(o["nodeFace"][0]):
         ctx.fail("C03/n_max_node_faces", "n_max_node_faces differs from the table width", inp, o, model, ["n_max_node_faces"])
     if o["n_max_face_faces"] != len(o["faceFace"][0]):
@@ -96,6 +107,8 @@ def judge_grid(ctx, g, inp, tag, key, prefix="C03/"):
         if (msets(o["nodeFace"]) != msets(model["nodeFace"]) or msets(o["faceFace"]) != msets(model["faceFace"])
                 or o["edgeFace"] != model["edgeFace"] or sorted(o["holes"]) != sorted(model["holes"])):
             ctx.mismatch("C03/tables-as-multisets", inp, o, model)
+        else:
+            ctx.hit("differs-from-model-in-free-order-only")
 
 
 def judge(ctx, m, tag):
@@ -163,44 +176,147 @@ def judge_derived(ctx, m, tag, der=None):
     judge_grid(ctx, g, inp, tag, key, prefix="C03/derived/")
 
 
+BUILT_SAMPLES_QUICK = ["test/meshfiles/exodus/mixed/mixed.exo", "test/meshfiles/ugrid/ov_RLL10deg_CSne4/ov_RLL10deg_CSne4.ug",
+                       "test/meshfiles/geos-cs/c12/test-c12.native.nc4", "test/meshfiles/ugrid/geoflow-small/grid.nc"]
+BUILT_SAMPLES_THOROUGH = ["test/meshfiles/scrip/outCSne8/outCSne8.nc", "test/meshfiles/ugrid/outCSne30/outCSne30.ug"]
+
+
+def _sample(rel):
+    """a sample data file: from the tree under test, else (scratch copies made with `rsync uxarray/` carry no
+    data files) from /repo — the data are inputs, not code under test"""
+    from pathlib import Path
+
+    p = common.REPO / rel
+    return p if p.exists() else Path("/repo") / rel
+
+
 def sample_files(ctx):
-    """sources that ship their own tables (MPAS): judged by the same Lean spec"""
+    """sources that ship their own tables (MPAS, primal and dual): judged by the same Lean spec; and the
+    suite's larger sample grids (hundreds to thousands of faces, tables built by the code), judged like
+    every generated mesh: by the Lean spec and against the model"""
     import uxarray as ux
 
-    f = common.REPO / "test/meshfiles/mpas/QU/mesh.QU.1920km.151026.nc"
+    mpas = "test/meshfiles/mpas/QU/mesh.QU.1920km.151026.nc"
+    f = _sample(mpas)
     if not f.exists():
         ctx.notes.append("MPAS sample file missing: supplied-table case skipped")
-        return
-    for dual in (False, True):
-        try:
-            g = ux.open_grid(str(f), use_dual=dual)
-        except Exception as e:
-            ctx.notes.append(f"MPAS sample (dual={dual}) could not be opened: {e}")
+    else:
+        for dual in (False, True):
+            try:
+                g = ux.open_grid(str(f), use_dual=dual)
+            except Exception as e:
+                # the file is a valid MPAS mesh (it opens on the unchanged code): not being able to read it is a failure
+                ctx.case(("file", mpas, dual), sample=None)
+                ctx.fail(f"C03/supplied/open-raises/{type(e).__name__}", f"opening the MPAS sample (use_dual={dual}) raises {type(e).__name__}: {e}",
+                         dict(file=mpas, use_dual=dual))
+                continue
+            supplied = [k for k in ("node_face_connectivity", "edge_face_connectivity", "face_face_connectivity") if k in g._ds]
+            ctx.hit("mpas-supplied:" + ",".join(s.split("_conn")[0] for s in supplied))
+            inp = dict(file=mpas, use_dual=dual, supplied=supplied)
+            judge_supplied(ctx, g, inp)
+    for rel in BUILT_SAMPLES_QUICK + (BUILT_SAMPLES_THOROUGH if ctx.thorough else []):
+        p = _sample(rel)
+        if not p.exists():
+            ctx.notes.append(f"sample grid {rel} missing: skipped")
             continue
-        supplied = [k for k in ("node_face_connectivity", "edge_face_connectivity", "face_face_connectivity") if k in g._ds]
-        ctx.hit("mpas-supplied:" + ",".join(s.split("_conn")[0] for s in supplied))
-        inp = dict(file=str(f.relative_to(common.REPO)), use_dual=dual, supplied=supplied)
-        judge_supplied(ctx, g, inp)
+        try:
+            g = ux.open_grid(str(p))
+        except Exception as e:
+            ctx.case(("file", rel), sample=None)
+            ctx.fail(f"C03/file/open-raises/{type(e).__name__}", f"opening the sample grid {rel} raises {type(e).__name__}: {e}", dict(file=rel))
+            continue
+        ctx.hit("sample-grid-file")
+        judge_grid(ctx, g, dict(file=rel), "file", ("file", rel), prefix="C03/file/")
 
 
-def judge_supplied(ctx, g, inp):
+def icon_like(ctx, m, tag, dialect=None):
+    """an ICON-style source: a triangle mesh whose file supplies face_edge / edge_face / face_face / edge_node itself
+    (one-based, stored (n_max, n_elem), int32, a missing neighbour written as 0 or -1, the neighbour of slot j lying
+    across edge slot j so that padding may sit in the MIDDLE of a face_face row).  The supplied tables are written
+    from a grid of the same mesh whose tables were built by the code; what is judged is the grid read back through
+    the ICON reader: supplied edge_face / face_face, derived node_face / hole_edge_indices, by the same Lean spec."""
+    import uxarray as ux
+    import xarray as xr
+
+    dialect = dialect or dict(missing=ctx.rng.choice([0, -1]), via_file=ctx.rng.random() < 0.3)
+    inp = dict(mesh=m.describe(), table=m.rows(), tag=tag, icon_like=dialect)
+    miss = dialect["missing"]
+    g0 = meshes.to_grid(m, ux)
+    T = g0.face_node_connectivity.values
+    FE0, EF0, EN0 = g0.face_edge_connectivity.values, g0.edge_face_connectivity.values, g0.edge_node_connectivity.values
+
+    def one_based(tab):
+        return np.where(tab == INT_FILL, miss, tab + 1).astype(np.int32).T.copy()
+
+    nb = np.full(FE0.shape, INT_FILL, dtype=np.int64)
+    for f in range(FE0.shape[0]):
+        for j, e in enumerate(FE0[f]):
+            if e != INT_FILL:
+                other = [int(x) for x in EF0[e] if x != INT_FILL and x != f]
+                nb[f, j] = other[0] if other else INT_FILL
+
+    def lonlat(xyz):
+        xyz = xyz / np.linalg.norm(xyz, axis=1, keepdims=True)
+        return np.arctan2(xyz[:, 1], xyz[:, 0]), np.arcsin(np.clip(xyz[:, 2], -1, 1))
+
+    el, ea = lonlat(m.xyz[EN0[:, 0]] + m.xyz[EN0[:, 1]])
+    cl, ca = lonlat(np.array([m.xyz[[v for v in r if v != INT_FILL]].mean(axis=0) for r in T]))
+    ds = xr.Dataset()
+    ds["vlon"] = xr.DataArray(np.radians(m.lon), dims=["vertex"])
+    ds["vlat"] = xr.DataArray(np.radians(m.lat), dims=["vertex"])
+    ds["elon"], ds["elat"] = xr.DataArray(el, dims=["edge"]), xr.DataArray(ea, dims=["edge"])
+    ds["clon"], ds["clat"] = xr.DataArray(cl, dims=["cell"]), xr.DataArray(ca, dims=["cell"])
+    ds["vertex_of_cell"] = xr.DataArray(one_based(T), dims=["nv", "cell"])
+    ds["edge_of_cell"] = xr.DataArray(one_based(FE0), dims=["nv", "cell"])
+    ds["neighbor_cell_index"] = xr.DataArray(one_based(nb), dims=["nv", "cell"])
+    ds["adjacent_cell_of_edge"] = xr.DataArray(one_based(EF0), dims=["nc", "edge"])
+    ds["edge_vertices"] = xr.DataArray(one_based(EN0), dims=["nc", "edge"])
+    tmp = None
+    try:
+        if dialect.get("via_file"):
+            import tempfile, os
+
+            tmp = tempfile.mkdtemp(prefix="c03_icon_")
+            path = os.path.join(tmp, "icon_like.nc")
+            ds.to_netcdf(path)
+            g = ux.open_grid(path)
+        else:
+            g = ux.open_grid(ds)
+    except Exception as e:
+        ctx.case(("icon", tag, m.rows(), str(dialect)), sample=None)
+        ctx.fail(f"C03/supplied/icon/open-raises/{type(e).__name__}", f"opening an ICON-style source raises {type(e).__name__}: {e}", inp)
+        return
+    finally:
+        if tmp:
+            import shutil
+
+            shutil.rmtree(tmp, ignore_errors=True)
+    supplied = [k for k in ("node_face_connectivity", "edge_face_connectivity", "face_face_connectivity") if k in g._ds]
+    ctx.hit("icon-supplied:" + ",".join(x.split("_conn")[0] for x in supplied))
+    ctx.hit("icon-like:holes" if (EF0[:, 1] == INT_FILL).any() else "icon-like:closed")
+    judge_supplied(ctx, g, dict(inp, file="icon-like:" + tag, use_dual=False, supplied=supplied), key=("icon", tag, m.rows(), str(dialect)))
+
+
+def judge_supplied(ctx, g, inp, key=None):
     """file-supplied tables: every clause of the spec is about membership, so it applies as is"""
     d = ctx.driver
     t = [[int(x) for x in r] for r in g.face_node_connectivity.values]
     FE = [[int(x) for x in r] for r in g.face_edge_connectivity.values]
     N = [int(x) for x in g.n_nodes_per_face.values]
     n, w, n_edge = int(g.n_node), int(g.n_max_face_nodes), int(g.n_edge)
-    if len(t) > 3 * SPEC_MAX_FACES:
-        ctx.notes.append("supplied-table sample too large for the Lean spec: skipped")
-        return
     enc = enc_in(n, w, t, FE, N, n_edge)
-    ctx.case(("file", inp["file"], inp["use_dual"]), sample=None)
+    ctx.case(key or ("file", inp["file"], inp["use_dual"]), nontrivial=len(t) > 1, sample=None)
     if d.ask("C03.pre", enc) != "1":
         ctx.hit("supplied:pre-fails")
         ctx.notes.append(f"{inp}: supplied face_edge table does not meet Pre (e.g. its own edge numbering is not tied to face_edge): not judged")
         return
-    o = observe(g)
+    try:
+        o = observe(g)
+    except Exception as e:
+        ctx.fail(f"C03/supplied/raises/{type(e).__name__}", f"reading the incidence tables of a grid with file-supplied tables raises {type(e).__name__}: {e}", inp)
+        return
     verdict = d.ask("C03.spec", enc, enc_rows(o["nodeFace"]), enc_pairs(o["edgeFace"]), enc_rows(o["faceFace"]), enc_ints(o["holes"]))
+    ctx.hit("supplied:lean-spec-evaluated")
     if verdict != "ok":
         clauses = verdict.split(" ", 1)[1].split(",")
         ctx.fail("C03/supplied/" + "+".join(clauses), "file-supplied incidence tables are not mutual transposes after reading: " + verdict,
@@ -244,7 +360,9 @@ def run(ctx):
     ctx.rule = ("meshes from harness/meshes.zoo (closed and partial, isolated faces, holes, valence 3..8, mixed sizes, random "
                 "renumbering; archipelagos interleaving faces with and without neighbours) + random small tables (2..5 faces "
                 "over <= 8 nodes) filtered by the Lean precondition Incidence.Pre; grids DERIVED from them (random reads on the parent, then "
-                "isel by faces in any order / nodes / edges, chains, copy()) judged against their own face table; MPAS sample with file-supplied tables; distinct = "
+                "isel by faces in any order / nodes / edges, chains, copy()) judged against their own face table; MPAS sample (primal and dual) with "
+                "file-supplied tables, synthetic ICON-style sources (triangle meshes, closed and with holes, whose file supplies face_edge / edge_face / "
+                "face_face one-based with 0 or -1 for a missing neighbour) and the suite's larger sample grids (up to 3840 faces in quick, 5400 in thorough), all judged by the Lean spec; distinct = "
                 "distinct face-node table; non-trivial = more than one face")
     ctx.assumptions = ["dict/list/np.pad semantics of the Python loops are tied to the model only by this differential run",
                        "face_edge_connectivity / n_nodes_per_face are taken from the implementation (their correctness is C02)"]
@@ -258,6 +376,16 @@ def run(ctx):
                 judge(ctx, mo, mo.kind)
             if m.n_face <= 200 and ctx.rng.random() < 0.5:
                 judge_derived(ctx, m, m.kind + "+derived")
+    for rep in range(ctx.n(6, 40)):
+        rng = ctx.rng
+        m = rng.choice([meshes.icosa, lambda: meshes.hull(rng.choice([6, 9, 14, 25]), rng), lambda: meshes.bipyramid(rng.choice([3, 4, 5, 6])),
+                        lambda: meshes.fan(rng.choice([3, 4, 5, 6]))])()
+        if rng.random() < 0.6:
+            m = m.drop_faces(rng, rng.choice([0.2, 0.4, 0.7]))
+        if rng.random() < 0.7:
+            m = m.renumber(rng)
+        if all(len(f) == 3 for f in m.faces):
+            icon_like(ctx, m, m.kind + "+icon-like")
     sample_files(ctx)
 
 
@@ -273,5 +401,8 @@ def replay(ctx, rp):
     m = meshes.AMesh(faces, xyz, inp["mesh"].get("closed", False), "replay")
     if inp.get("derivation"):
         judge_derived(ctx, m, "replay", inp["derivation"])
+        return
+    if inp.get("icon_like"):
+        icon_like(ctx, m, "replay", inp["icon_like"])
         return
     judge(ctx, m, "replay")
